@@ -352,6 +352,9 @@ func (rc *rootCtx) moduleCallRoots(c *ssa.Call, fn *ssa.Function) []root {
 
 // isRefLike: values of this type can share mutable memory with their source.
 func isRefLike(t types.Type) bool {
+	if _, isTP := types.Unalias(t).(*types.TypeParam); isTP {
+		return typeParamRefLike(t)
+	}
 	switch u := t.Underlying().(type) {
 	case *types.Pointer, *types.Slice, *types.Map, *types.Chan, *types.Signature, *types.Interface:
 		return true
@@ -381,6 +384,10 @@ func isRefLike(t types.Type) bool {
 		}
 		return false
 	}
+	return false
+}
+
+func typeParamRefLike(t types.Type) bool {
 	if tp, ok := types.Unalias(t).(*types.TypeParam); ok {
 		// a type parameter whose type set contains only value types is not ref-like
 		if it, ok := tp.Constraint().Underlying().(*types.Interface); ok {
@@ -405,7 +412,7 @@ func embeddedIsValueOnly(t types.Type) bool {
 	switch u := types.Unalias(t).(type) {
 	case *types.Union:
 		for i := 0; i < u.Len(); i++ {
-			if isRefLike(u.Term(i).Type()) {
+			if !embeddedIsValueOnly(u.Term(i).Type()) {
 				return false
 			}
 		}
@@ -591,6 +598,72 @@ type classified struct {
 	rt    root
 }
 
+// escapingClosure: fn (a closure) can outlive the activation of its parent:
+// its MakeClosure value is used other than as the callee of a call/defer.
+func escapingClosure(fn *ssa.Function) bool {
+	par := fn.Parent()
+	if par == nil {
+		return false
+	}
+	esc := false
+	eachInstr(par, func(_ *ssa.BasicBlock, _ int, in ssa.Instruction) {
+		mc, ok := in.(*ssa.MakeClosure)
+		if !ok || mc.Fn != fn {
+			return
+		}
+		if refs := mc.Referrers(); refs != nil {
+			for _, rf := range *refs {
+				switch u := rf.(type) {
+				case *ssa.Defer:
+					if u.Call.Value != mc {
+						esc = true
+					}
+				case *ssa.Call:
+					if u.Call.Value != mc {
+						esc = true
+					}
+				case *ssa.DebugRef:
+				default:
+					esc = true
+				}
+			}
+		}
+	})
+	return esc
+}
+
+// sharedCapture: value v belongs to an ancestor function of `in`, and some
+// closure between them escapes: the memory is shared between calls of the
+// closure (and between goroutines).
+func sharedCapture(v ssa.Value, in *ssa.Function) bool {
+	var owner *ssa.Function
+	switch x := v.(type) {
+	case *ssa.Parameter:
+		owner = x.Parent()
+	case ssa.Instruction:
+		owner = x.Parent()
+	}
+	if owner == nil || in == nil || owner == in {
+		return false
+	}
+	for f := in; f != nil && f != owner; f = f.Parent() {
+		if escapingClosure(f) {
+			return true
+		}
+	}
+	return false
+}
+
+// classifyIn classifies memory as seen from a write in function fn: locals of
+// an enclosing function captured by an escaping closure are shared state.
+func (P *Prog) classifyIn(fn *ssa.Function, rt root) classified {
+	c := P.classify(rt)
+	if (rt.kind == rkLocal || rt.kind == rkParam) && c.class == mcLocal && sharedCapture(rt.v, fn) {
+		c.class = mcFreeVar
+	}
+	return c
+}
+
 // classify a root+path.
 func (P *Prog) classify(rt root) classified {
 	var cur memClass
@@ -721,7 +794,7 @@ func (P *Prog) classesOfWrite(w writeSite) []classified {
 				rt = rt.with(step{load: true})
 			}
 		}
-		out = append(out, P.classify(rt))
+		out = append(out, P.classifyIn(w.fn, rt))
 	}
 	return out
 }
@@ -915,4 +988,20 @@ func (P *Prog) execSet(g *modCG) map[*ssa.Function]bool {
 		}
 	}
 	return g.reachableFrom(roots)
+}
+
+func debugRefLike(t types.Type) string {
+	tp, ok := types.Unalias(t).(*types.TypeParam)
+	if !ok {
+		return fmt.Sprintf("not typeparam: %T", t)
+	}
+	it, ok := tp.Constraint().Underlying().(*types.Interface)
+	if !ok {
+		return "constraint not interface"
+	}
+	s := fmt.Sprintf("embeddeds=%d methods=%d:", it.NumEmbeddeds(), it.NumMethods())
+	for i := 0; i < it.NumEmbeddeds(); i++ {
+		s += fmt.Sprintf(" [%T %v valueonly=%v]", it.EmbeddedType(i), it.EmbeddedType(i), embeddedIsValueOnly(it.EmbeddedType(i)))
+	}
+	return s
 }
